@@ -89,9 +89,18 @@ namespace jsonschema {
             for (const auto& prop : sch.object_range())
             {
                 jsoncons::string_view sub_keys[] = {keyword};
+                std::regex key_regex;
+                JSONCONS_TRY
+                {
+                    key_regex = std::regex(prop.key(), std::regex::ECMAScript);
+                }
+                JSONCONS_CATCH(const std::regex_error&)
+                {
+                    JSONCONS_THROW(schema_error(schema_location.string() + ": '" + std::string(prop.key()) + "' is not a valid ECMAScript regular expression"));
+                }
                 pattern_properties.emplace_back(
                     std::make_pair(
-                        std::regex(prop.key(), std::regex::ECMAScript),
+                        std::move(key_regex),
                         factory_->make_cross_draft_schema_validator(context, prop.value(), sub_keys, anchor_dict)));
                 
             }
@@ -456,7 +465,15 @@ namespace jsonschema {
         {
             uri schema_location = context.make_schema_location("pattern");
             auto pattern_string = sch.template as<std::string>();
-            auto regex = std::regex(pattern_string, std::regex::ECMAScript);
+            std::regex regex;
+            JSONCONS_TRY
+            {
+                regex = std::regex(pattern_string, std::regex::ECMAScript);
+            }
+            JSONCONS_CATCH(const std::regex_error&)
+            {
+                JSONCONS_THROW(schema_error(schema_location.string() + ": '" + pattern_string + "' is not a valid ECMAScript regular expression"));
+            }
             return jsoncons::make_unique<pattern_validator<Json>>(parent, schema_location, context.get_custom_message("pattern"), 
                 pattern_string, regex);
         }
